@@ -47,7 +47,12 @@ static std::string run_case(const J &c, std::string &sig) {
     char buf[400];
     for (auto &d : descs.av) built.push_back(io_build(d));
     // one stream, objects back to back
-    if (wfile) { char *b = nullptr; size_t len = 0; FILE *F = open_memstream(&b, &len); for (auto *o : built) io_export_file(o, F); fclose(F); all.assign(b, len); free(b); }
+    if (wfile && c["wdisk"].i()) { // export through a FILE* of a real file, then read the bytes back
+        char wt[] = "/tmp/c05w-XXXXXX"; int wfd = mkstemp(wt); if (wfd < 0) { perror("mkstemp"); exit(3); }
+        FILE *F = fdopen(wfd, "wb"); for (auto *o : built) io_export_file(o, F); fclose(F);
+        std::ifstream rb(wt, std::ios::binary); std::stringstream ss; ss << rb.rdbuf(); all = ss.str(); unlink(wt);
+    }
+    else if (wfile) { char *b = nullptr; size_t len = 0; FILE *F = open_memstream(&b, &len); for (auto *o : built) io_export_file(o, F); fclose(F); all.assign(b, len); free(b); }
     else { std::ostringstream ss; for (auto *o : built) io_export_stream(o, ss); all = ss.str(); }
     for (auto *o : built) bytes.push_back(io_export_bytes(o, wfile));
     size_t total = 0;
@@ -98,9 +103,9 @@ static J gen_obj(int forced_type = -1) {
     int type = forced_type >= 0 ? forced_type : *rc::gen::weightedElement<int>({{3, 0}, {3, 1}, {2, 2}, {3, 3}, {2, 4}, {2, 5}, {3, 6}, {2, 7}, {2, 8}, {2, 9}, {2, 10}, {3, 11}, {1, 12}, {1, 13}, {2, 14}});
     d.set("type", type).set("name", IONAME[type]);
     bool keyset = type == T_CLOUD || type == T_SECRET;
-    d.set("n", keyset ? *rng<int>(1, 3) : (type == T_KSKEY ? *rng<int>(1, 8) : type == T_BKKEY ? *rng<int>(1, 3) : *rc::gen::weightedOneOf<int>({{5, rng<int>(1, 40)}, {1, rng<int>(41, 700)}})));
-    d.set("N", *rc::gen::weightedOneOf<int>({{5, rng<int>(1, 16)}, {2, rc::gen::element<int>(32, 64, 100, 1024)}}));
-    if (type == T_BKKEY || type == T_TGSWSAMPLE) d.set("N", *rc::gen::weightedOneOf<int>({{6, rng<int>(1, 16)}, {1, rc::gen::element<int>(256, 1024)}}));
+    d.set("n", keyset ? *rng<int>(1, 3) : (type == T_KSKEY ? *rng<int>(1, 8) : type == T_BKKEY ? *rng<int>(1, 3) : *rc::gen::weightedOneOf<int>({{10, rng<int>(1, 40)}, {2, rng<int>(41, 700)}, {1, rng<int>(2040, 2600)}})));
+    d.set("N", *rc::gen::weightedOneOf<int>({{5, rng<int>(1, 16)}, {2, rc::gen::element<int>(32, 64, 100, 1024)}, {1, rc::gen::element<int>(2048, 2047, 2049, 4096)}})); // single arrays of 8 KB and more (stdio buffer size)
+    if (type == T_BKKEY || type == T_TGSWSAMPLE) d.set("N", *rc::gen::weightedOneOf<int>({{6, rng<int>(1, 16)}, {1, rc::gen::element<int>(256, 1024, 2048)}}));
     d.set("k", *rng<int>(1, keyset ? 1 : 3));
     int Bgbit = *rng<int>(1, keyset ? 8 : 16);
     d.set("Bgbit", Bgbit).set("l", *rng<int>(1, std::min(keyset ? 2 : 6, 32 / Bgbit)));
@@ -120,7 +125,7 @@ int main(int argc, char **argv) {
         for (auto &d : c["objs"].av) for (const char *k : {"amin", "amax", "amin2", "amax2"}) if (!representable8(d[k].d())) return true;
         return false;
     };
-    H.classify = [](const J &c) { return std::string(c["wfile"].i() ? "wFILE" : "wstream") + "_" + (c["rfile"].i() ? "rFILE" : "rstream") + (c["ondisk"].i() ? "-ondisk" : "") + "_len" + std::to_string(c["objs"].size()); };
+    H.classify = [](const J &c) { return std::string(c["wfile"].i() ? "wFILE" : "wstream") + "_" + (c["rfile"].i() ? "rFILE" : "rstream") + (c["ondisk"].i() ? "-ondisk" : "") + (c["wfile"].i() && c["wdisk"].i() ? "_wdisk" : "") + (c["big"].i() ? "_array>=8KB" : "") + "_len" + std::to_string(c["objs"].size()); };
     if (H.mode == "replay") return H.replay(A.s("replay"));
     if (H.mode == "defaults") { // the two default parameter sets and one default-size key set per set, both transports
         uint64_t seed = A.u("seed", 1);
@@ -144,7 +149,10 @@ int main(int argc, char **argv) {
         J objs = J::array();
         int keysets = 0;
         for (int i = 0; i < len; i++) { J d = gen_obj(); if ((d["type"].i() == T_CLOUD || d["type"].i() == T_SECRET) && ++keysets > 1) d = gen_obj(*rng<int>(0, 11)); objs.push(d); }
-        c.set("objs", objs).set("wfile", *rng<int>(0, 1)).set("rfile", *rng<int>(0, 1)).set("fseed", *genSeed()).set("ondisk", *rc::gen::weightedElement<int>({{2, 0}, {1, 1}}));
+        int big = 0;
+        for (auto &d : objs.av) { int ty = (int)d["type"].i(); bool usesN = (ty >= T_TLWEPARAMS && ty <= T_TGSWKEY) || ty == T_BKKEY; bool usesn = ty == T_LWESAMPLE || ty == T_LWEKEY || ty == T_GATECT; if ((usesN && d["N"].i() >= 2048 && ty != T_TLWEPARAMS && ty != T_TGSWPARAMS) || (usesn && d["n"].i() >= 2048)) big = 1; }
+        c.set("big", big);
+        c.set("objs", objs).set("wfile", *rng<int>(0, 1)).set("rfile", *rng<int>(0, 1)).set("fseed", *genSeed()).set("ondisk", *rc::gen::weightedElement<int>({{2, 0}, {1, 1}})).set("wdisk", *rc::gen::weightedElement<int>({{1, 0}, {1, 1}}));
         return c;
     });
     return H.finish();
